@@ -663,7 +663,9 @@ package gen
 
 // C01/C04: reading a column chunk leaves values and levels aligned: a required column gains
 // exactly the chunk's value count, an optional column ends up with as many values as it has
-// definition levels equal to the column's maximum (whatever the page split).
+// definition levels equal to the column's maximum (whatever the page split), provided the
+// values of the previous row group were all handed out (the generated reader reads a row group
+// only after the last row of the previous one).
 //@ pred nonNull(f) := cntEq(HA(f.Defs), off(f.Defs), #f.Defs, f.MaxLevels.Def)
 //@ template T in Int32 Int64 Uint32 Uint64 Float32 Float64
 //@ func (*{T}Field).Read
@@ -681,7 +683,7 @@ package gen
 //@   free-requires ref(f.vals) == 0 || (ref(f.vals) != ref(f.Defs) && ref(f.vals) != ref(f.Reps))
 //@   modifies f, HA(f.vals), HA(f.Defs), HA(f.Reps), heap("parquet.readCounter"), srcPos, rd, vPage, vDefs, curNV
 //@   ensures[C10] err == nil ==> (rfault ==> old(rfault))
-//@   ensures[C01,C04] err == nil ==> #f.vals == nonNull(f)
+//@   ensures[C01,C04] err == nil && old(#f.vals) == 0 ==> #f.vals == nonNull(f)
 //@ end template
 //@ func (*StringField).Read
 //@   verify[C01]
